@@ -189,7 +189,7 @@ def predict_case(draw):
         qs.append([j, uu * pc["span"] * 60])
     arr_shape = draw(st.sampled_from(["scalar", "1d", "2d", "col"]))
     return {"pc": pc, "subset": subset, "q": qs, "arr": arr_shape, "x": draw(st.floats(-0.25, 0.25)), "deriv_n": draw(st.integers(0, 2)),
-            "subset_via": draw(st.sampled_from(["table", "text"]))}
+            "subset_via": draw(st.sampled_from(["table", "table", "text"])), "warm_parent": draw(st.booleans())}
 
 
 def q_time(ents_all, j, off):
@@ -221,6 +221,10 @@ def run_predict(case, stt):
         if case["subset_via"] == "table":
             # rows are sorted by tmid == generation order
             with lib("predictor[rows]"):
+                if case.get("warm_parent"):
+                    # the parent has been used before the subset is taken (anything it caches must not leak into the subset)
+                    _ = pred.intervals
+                    _ = pred(all_ents[0].tmid)
                 pred = pred[sub]
         else:
             pc2 = dict(pc, entries=[pc["entries"][i] for i in sub], via="stringio")
@@ -317,7 +321,7 @@ def run_predict(case, stt):
     stt.label("ncoeff_%d" % pc["ncoeff"])
     stt.label("entries_%d" % len(ents))
     stt.label("arr_" + case["arr"])
-    stt.label("subset_" + ("none" if sub is None else case["subset_via"]))
+    stt.label("subset_" + ("none" if sub is None else case["subset_via"] + ("_warm" if case.get("warm_parent") and case["subset_via"] == "table" else "")))
     stt.label("intervals_%d" % len(exp_iv))
     stt.label("via_" + pc["via"])
 
